@@ -65,6 +65,32 @@ BYSTANDER = ["new 1"] + emit_define(AMB, 1, 1)
 BY_CHECK = emit_tokens(codes(AMB, "a '*' a '+' a")) + ["set 1 one 0", "parse 1 2 f", "free 1"]
 
 
+def random_corpus(rng, n):
+    """seed-dependent scenarios: pool/random/mutant and `error' grammars, a sentence or a non-sentence, random flags,
+    defined through the callbacks or (if printable) a description"""
+    from . import recx, oracle
+    C = []
+    grams = sem.grammar_stream(rng, n) + recx.error_grammars(rng, n)
+    rng.shuffle(grams)
+    for i, (name, g, strict) in enumerate(grams[:n]):
+        ins = gen.inputs_for(rng, g, 3, 6, 10)
+        w = rng.choice(ins) if ins else []
+        cfg = emit_config(0, la=rng.randrange(3), one=rng.randrange(2), cost=rng.randrange(2), rec=rng.randrange(2),
+                          match=rng.randrange(1, 5))
+        if desc.printable(g) and rng.random() < 0.4:
+            text, den = desc.print_desc(rng, g)
+            c = den.code_of()
+            define = ["desc 0 %d %s" % (strict, hx(text))]
+            toks = [c[t] for t in w]
+        else:
+            c = g.code_of()
+            define = emit_define(g, 0, strict)
+            toks = [c[t] for t in w]
+        C.append(("random_%d_%s" % (i, name), ["new 0"] + cfg + define + emit_tokens(toks) +
+                  ["parse 0 %d f" % rng.choice((0, 1, 2, 2))]))
+    return C
+
+
 def make_case(cid, steps, k, warm):
     L = ["C %d" % cid]
     if warm:
@@ -175,8 +201,9 @@ def check(tier):
     total_allocs = 0
     exhaustive = True
     table = []
-    for name, steps in corpus(tier):
-        for warm in (False, True):
+    scen = corpus(tier) + random_corpus(rng, 8 if tier == "quick" else 80)
+    for name, steps in scen:
+        for warm in ((False, True) if not name.startswith("random_") else (rng.random() < 0.5,)):
             n = count_allocs(exe, steps, warm)
             total_allocs += n
             if tier == "thorough" or n <= 260:
@@ -193,7 +220,9 @@ def check(tier):
     counters = sem.merge(ck, res)
     ck.cov["exhaustive"] = exhaustive
     ck.cov["scenarios"] = [{"name": n, "warm": w, "allocations": a, "fault_points_run": k} for n, w, a, k in table]
-    ck.cov["rule"] = ("corpus of %d scenarios x {cold, warm}; the library is compiled with malloc/calloc/realloc/free "
+    ck.cov["rule"] = ("corpus of %d fixed scenarios x {cold, warm} plus seed-dependent random scenarios (8 quick, 80 "
+                      "thorough: pool/random/mutant/`error' grammars, sentence or non-sentence, random flags, callbacks "
+                      "or description, cold or warm); the library is compiled with malloc/calloc/realloc/free "
                       "renamed to counting wrappers in the driver; for k = 1..N (N = allocation requests of the "
                       "fault-free run of the steps under test; quick tier: every k for N<=260, else first 150, 90 "
                       "sampled, last 40) the k-th request returns NULL. The faulted call must return NULL / "
